@@ -1044,9 +1044,14 @@ Definition do_api (h : hub) (b room : N) (q : apireq) : hub * list out :=
   end.
 
 (* ------------------------------------------------------------------ housekeeping *)
+(* the three timeouts of the housekeeping, in seconds, as the source states them (gen/Params.v) *)
+Definition hub_expire_s : N := Z.to_N (hub_sessionExpireDuration / 1000000000).
+Definition hub_anonymous_s : N := Z.to_N (hub_anonymousJoinRoomTimeout / 1000000000).
+Definition hub_hello_s : N := Z.to_N (hub_initialHelloTimeout / 1000000000).
+
 Definition do_tick (h : hub) (secs : N) : hub * list out :=
-  let '(h1, o1) := if 30 <? secs then fold_sessions h h.(h_expired) close_session else (h, []) in
-  let '(h2, o2) := if 10 <? secs then
+  let '(h1, o1) := if hub_expire_s <? secs then fold_sessions h h.(h_expired) close_session else (h, []) in
+  let '(h2, o2) := if hub_anonymous_s <? secs then
                      fold_sessions h1 h1.(h_anonymous) (fun hh sid =>
                        match get_sess hh sid with
                        | Some s =>
@@ -1057,7 +1062,7 @@ Definition do_tick (h : hub) (secs : N) : hub * list out :=
                        | None => (hh, [])
                        end)
                    else (h1, []) in
-  let '(h3, o3) := if 2 <? secs then
+  let '(h3, o3) := if hub_hello_s <? secs then
                      fold_sessions h2 (map fst (filter (fun e => (snd e).(c_expect)) h2.(h_conns)))
                                    (fun hh c => send_conn hh c (SBye B_hello_timeout))
                    else (h2, []) in
